@@ -13,6 +13,7 @@ pub mod c16;
 pub mod c17;
 pub mod c18;
 pub mod c19;
+pub mod c20;
 pub mod replay;
 
 use crate::common::{Coverage, Ctx};
@@ -35,6 +36,7 @@ pub fn dispatch(ctx: &Ctx) -> Option<Coverage> {
         "C17" => c17::run(ctx),
         "C18" => c18::run(ctx),
         "C19" => c19::run(ctx),
+        "C20" => c20::run(ctx),
         "C12" => c11::run_c12(ctx),
         _ => return None,
     })
